@@ -182,10 +182,11 @@ def check(ctx):
     ctx.ob("C04.R4", fd, "_find_duplicate reports an element seen before", ok)
 
     # ---- shared mechanisms: the neighbour's rules run as obligations of this property
+    ctx.include("C14", "C04.R5", only=['C14.R1', 'C14.R2'])
     ctx.include("C11", "C04.R5", only=['C11.R4'])
     ctx.include("C05", "C04.R5", only=None)
     ctx.include("C06", "C04.R5", only=None)
     ctx.include("C09", "C04.R5", only=None)
     ctx.include("C13", "C04.R5", only=None)
     ctx.include("C07", "C04.R5", only=['C07.R3'])
-    ctx.rule("R5", "shared mechanisms, run as obligations of this property: tuning state is frozen outside adaptation epochs (C11.R4); the accept/reject step is exact (C05); the proposal corrections are the true density ratios (C06); blockwise composition keeps the state coherent (C09); the Gibbs kernels draw from the full conditional (C13); every transition of a chunk gets its own key and the current epoch state (C07.R3).")
+    ctx.rule("R5", "shared mechanisms, run as obligations of this property: a transformed parameter keeps the model density: transforms are dispatched and wired as C14 demands; tuning state is frozen outside adaptation epochs (C11.R4); the accept/reject step is exact (C05); the proposal corrections are the true density ratios (C06); blockwise composition keeps the state coherent (C09); the Gibbs kernels draw from the full conditional (C13); every transition of a chunk gets its own key and the current epoch state (C07.R3).")
